@@ -263,7 +263,7 @@ def int_alias_discipline(chk: Check) -> None:
     prog = chk.prog
     proc = prog.cls('processes.Process')
     # OWN: _interrupt_action is assigned only in _set_interrupt_action
-    for f, node in attr_writers(prog, '_interrupt_action'):
+    for f, node in __import__('plumpy_sa.rules', fromlist=['effective_writers']).effective_writers(prog, '_interrupt_action'):
         chk.ob('OWN-interrupt-action', f, f.qualname == 'processes.Process._set_interrupt_action',
                '_interrupt_action is replaced only through _set_interrupt_action (which cancels the previous action)', node=node,
                kind='writer', expr='_interrupt_action store')
